@@ -29,11 +29,14 @@ def sample(rng, xs, k):
         return xs
     if xs and isinstance(xs[0], dict) and "tag" in xs[0]:
         groups = {}
+        # problems marked "keep" hold a shape that calibration showed to matter (e.g. an assignment that spans a
+        # whole WorkLoad interval): they are part of every quick sample
+        out = [x for x in xs if x.get("keep")][:k]
         for x in xs:
-            groups.setdefault(x["tag"], []).append(x)
+            if not x.get("keep") or x not in out:
+                groups.setdefault(x["tag"], []).append(x)
         for g in groups.values():
             rng.shuffle(g)
-        out = []
         while len(out) < k:
             progressed = False
             for tag in sorted(groups):
